@@ -41,6 +41,15 @@ def build_world(client, rng, flat=None, no_sharing=None, rich=False):
         no_sharing = rng.random() < 0.25
     n = rng.randint(2, 7)
     n_trees = rng.randint(1, min(3, n))
+    # "twin" style (homogeneous hosts, the documented nested shape): two
+    # trees, every child supplies ONE class of its own (NUMA node / PF /
+    # disk child); the second host is nested the same way or is one flat
+    # provider supplying everything
+    layout = None
+    if not flat and rng.random() < 0.25:
+        k0, k1 = rng.choice([2, 2, 3]), rng.choice([0, 2, 2, 3])
+        layout = [None, None] + [0] * k0 + [1] * k1
+        n, n_trees = len(layout), 2
     parents = {}
     depth = {}
     for i in range(n):
@@ -49,6 +58,8 @@ def build_world(client, rng, flat=None, no_sharing=None, rich=False):
         if i >= n_trees and not flat:
             cands = [x for x in w.rps if depth[x] < 3]
             par = rng.choice(cands)
+            if layout:
+                par = w.rps[layout[i]]
             body['parent_provider_uuid'] = par
             parents[u] = par
             depth[u] = depth[par] + 1
@@ -64,16 +75,25 @@ def build_world(client, rng, flat=None, no_sharing=None, rich=False):
         for u in w.rps:
             if rng.random() < 0.3:
                 sharing.add(u)
+    nth = {}
+    has_kids = set(parents.values())
     for u in w.rps:
         k = rng.choice([0, 1, 1, 2, 2, 3])
         if u in sharing:
             k = rng.choice([1, 1, 2])
         if rich:
             k = rng.choice([1, 2, 2, 3, 3])
+        if layout and not parents[u]:
+            k = rng.choice([0, 0, 1]) if u in has_kids else len(w.classes)
         invs = {}
-        for c in rng.sample(w.classes, min(k, len(w.classes))):
+        chosen = rng.sample(w.classes, min(k, len(w.classes)))
+        if layout and parents[u]:
+            j = nth.get(parents[u], 0)
+            nth[parents[u]] = j + 1
+            chosen = [w.classes[j % len(w.classes)]]
+        for c in chosen:
             total = rng.choice([1, 2, 3, 4, 4, 8, 8, 16])
-            if rich:
+            if rich or (layout and rng.random() < 0.7):
                 total = rng.choice([2, 4, 4, 8, 8, 16])
             f = {'total': total}
             if rng.random() < 0.3:
